@@ -50,21 +50,23 @@ func specPool(tier string) int {
 }
 
 func (check) Rule() string {
-	return "per case: a type program (struct with config tags / *struct / inline struct / map[string]T / []T / [N]T / interface{} over leaves string bool int int8-64 uint uint8-64 float32/64 time.Duration *regexp.Regexp, pointers to them, four hand-written leaf types with Validate or Unpack and a struct with Validate; validate tags min max positive nonzero required; depth <= 4) drawn from a seed-determined pool (thorough: 3000 programs, bounds the reflect.StructOf types per worker), a data tree generated FROM the program (numbers as int64/uint64/float64/decimal string, durations as text or seconds, free data below interface{}) loaded with NewFrom(PathSep(\".\"), VarExp, MetaData{src-<case>}) which must Unpack into the type (else valid-pair-rejected). Then up to 10 single faults, stratified over the fault kinds applicable in the tree (object/list for primitive, primitive for object/list, bool<->number, unparsable int/uint/float/bool/duration/regexp, out of range for every sized integer/float32/float64/duration incl. 2^63 and 2^64 floats, negative into unsigned, tag validators min/max/positive/nonzero/required with empty/null/missing, failing Validate()/Unpack() of the hand-written types, a struct setting left out or present as null whose first validated member then fails on its zero value, references that do not resolve: a path missing at its first segment (${nope}, ${nope.missing}, ${nope.x.y}), at an intermediate or at the last segment below a namespace of the tree (${a.b.zz_nope.x}, ${a.b.zz_nope}), at an index behind a list of the tree (${l.5}, ${l.5.x}), through a primitive of the tree (${k.x}, ${k.x.y}, ${l.0.x.y}), self-referencing ${<path>}, a reference into a cycle of two helper settings (x:${y}, y:${x}; struct targets only, which do not read the helpers) - each either as the whole value (2 of 5) or inside a splice evaluating to a text (\"pre-${r}\", \"${r}/cache\"), a list (\"${r},extra\", \"[1, ${r}, 3]\") or an object (\"{zk: ${r}}\", \"{zk: {zm: [${r}]}}\") -, array too short/long; half of the reference faults are placed below an interface{} slot when the tree has one), each at one setting of the tree (struct fields, inline fields, map entries, list and array elements, below pointers, inside interface{} data). Every fault is observed on the configuration built directly and on one built by a randomly chosen other route: merge chains under the default policy (fault delivered by the later operand over an absent or placeholder setting / fault present first and the surroundings merged over it), AppendValues / PrependValues chains that cut the outermost list on the fault path into up to three operands (renumbering), NewFrom plus Remove of 1-3 extra elements in front of the fault in a list on the path (shifting), the input spelled in dotted keys (every edge into a non-empty dictionary or list folded into the key, \"a.b.c\":1 / \"a.l.0\":1 / \"a.l.1.k\":2 with lists spelled completely, or kept nested, decided per path; alone or as operands of the two default-policy chains; a quarter of the routed runs) so that namespaces and lists exist only implicitly, merges under ReplaceValues / ReplaceArrValues over an earlier operand holding the valid tree with every list on the fault path one element longer, the value written by Set*/SetChild, a faulty list or object written leaf by leaf with setters using full paths (the containers in between exist only as a by-product), an enclosing subtree attached by SetChild (fresh or taken from another tree), the key removed by Remove; and values produced by expansion (a fixed quarter of the routed runs): the subtree at the faulty setting, at its holder or further up the path is written as text in the flag/environment value syntax (bare, single and double quoted strings and keys, lists with and without brackets, nested lists and objects, null members) and the setting holds \"${ENV_n}\" served by a Resolve callback given to every read, or a splice whose middle piece is served by the callback or by a top-level helper setting, stored directly or delivered by a later merge operand - the list or object exists only while it is read, the fault sits at it (length, validator, type), at a member missing from it, or below it at any depth. The valid twin of every routed history must still unpack (for expanded values a twin that does not unpack is only counted: a number written as text is no duration). Observations: Unpack (with and without PathSep), the getters that must fail for the fault (dotted name, name+idx, or relative to an intermediate Child), Unpack of an intermediate Child into the matching sub-type; for reference faults also the calls that pass through the failing reference or measure it (Has, Remove, Set* of a name below it, CountField of it; judged when they fail). Plus, per case, 6 reads of settings that do not exist (a key not in a dictionary of the tree, an index behind a list of the tree, names below those; dotted, name+idx, through a Child handle; any getter) whose error must name the first missing setting or a longer prefix of the request, and carry the source; and ~600 calls driving the error paths of Bool/Int/Uint/Float/String/Child, Has, CountField, Remove, Set*, SetChild, NewFrom, Merge and Unpack (missing, through primitives, through failing references, wrong types, unsupported values and targets, non-string keys, duplicate keys, broken ${ syntax, failing resolvers). Distinct = distinct (type program and tree shape, fault kind, depth class, route)."
+	return "per case: a type program (struct with config tags / *struct / inline struct / map[string]T / []T / [N]T / interface{} over leaves string bool int int8-64 uint uint8-64 float32/64 time.Duration *regexp.Regexp, pointers to them, four hand-written leaf types with Validate or Unpack and a struct with Validate; validate tags min max positive nonzero required; one struct field in seven addressed by a dotted tag `config:\"a<sep>b\"`, which makes the namespace a in between a setting of its own to put faults at; depth <= 4; the path separator <sep> of the case - \".\" (half), \"/\", \"::\" - is part of the program: the dotted tags are written with it and every read of the case (Unpack, getters, Child, Has, Remove, setters) uses it, while messages always have to spell paths with dots) drawn from a seed-determined pool (thorough: 3000 programs, bounds the reflect.StructOf types per worker), a data tree generated FROM the program (numbers as int64/uint64/float64/decimal string, durations as text or seconds, free data below interface{}) loaded with NewFrom(PathSep(\".\"), VarExp, MetaData{src-<case>}) which must Unpack into the type (else valid-pair-rejected). Then up to 10 single faults, stratified over the fault kinds applicable in the tree (object/list for primitive, primitive for object/list, bool<->number, unparsable int/uint/float/bool/duration/regexp, out of range for every sized integer/float32/float64/duration incl. 2^63 and 2^64 floats, negative into unsigned, tag validators min/max/positive/nonzero/required with empty/null/missing, failing Validate()/Unpack() of the hand-written types, a struct setting left out or present as null whose first validated member then fails on its zero value, references that do not resolve: a path missing at its first segment (${nope}, ${nope.missing}, ${nope.x.y}), at an intermediate or at the last segment below a namespace of the tree (${a.b.zz_nope.x}, ${a.b.zz_nope}), at an index behind a list of the tree (${l.5}, ${l.5.x}), through a primitive of the tree (${k.x}, ${k.x.y}, ${l.0.x.y}), a reference that resolves but to an object elsewhere in the tree where a primitive is expected (the setting holding the reference is the wrong typed one, not the object), self-referencing ${<path>}, a reference into a cycle of two helper settings (x:${y}, y:${x}; struct targets only, which do not read the helpers) - each either as the whole value (2 of 5) or inside a splice evaluating to a text (\"pre-${r}\", \"${r}/cache\"), a list (\"${r},extra\", \"[1, ${r}, 3]\") or an object (\"{zk: ${r}}\", \"{zk: {zm: [${r}]}}\") -, array too short/long; half of the reference faults are placed below an interface{} slot when the tree has one), each at one setting of the tree (struct fields, inline fields, map entries, list and array elements, below pointers, inside interface{} data). Every fault is observed on the configuration built directly and on one built by a randomly chosen other route: merge chains under the default policy (fault delivered by the later operand over an absent or placeholder setting / fault present first and the surroundings merged over it), AppendValues / PrependValues chains that cut the outermost list on the fault path into up to three operands (renumbering), NewFrom plus Remove of 1-3 extra elements in front of the fault in a list on the path (shifting), the input spelled in dotted keys (every edge into a non-empty dictionary or list folded into the key, \"a.b.c\":1 / \"a.l.0\":1 / \"a.l.1.k\":2 with lists spelled completely, or kept nested, decided per path; alone or as operands of the two default-policy chains; a quarter of the routed runs) so that namespaces and lists exist only implicitly, merges under ReplaceValues / ReplaceArrValues over an earlier operand holding the valid tree with every list on the fault path one element longer, a merge with FieldReplaceValues(<a dictionary on the fault path>) over an earlier operand holding the same tree with one more key in that dictionary (the dictionary then comes from the later operand as a whole, also for a member missing from it), a later operand giving the holder of the faulty setting both parts (a named setting added to the list the faulty element sits in, a first element added to the dictionary the faulty member sits in); the dotted spellings, the expansion routes, the mixed holders and the per-field replace get a fixed sixth of the routed runs each, the value written by Set*/SetChild, a faulty list or object written leaf by leaf with setters using full paths (the containers in between exist only as a by-product), an enclosing subtree attached by SetChild (fresh or taken from another tree), the key removed by Remove; and values produced by expansion (a fixed quarter of the routed runs): the subtree at the faulty setting, at its holder or further up the path is written as text in the flag/environment value syntax (bare, single and double quoted strings and keys, lists with and without brackets, nested lists and objects, null members) and the setting holds \"${ENV_n}\" served by a Resolve callback given to every read, or a splice whose middle piece is served by the callback or by a top-level helper setting, stored directly or delivered by a later merge operand - the list or object exists only while it is read, the fault sits at it (length, validator, type), at a member missing from it, or below it at any depth. The valid twin of every routed history must still unpack (for expanded values a twin that does not unpack is only counted: a number written as text is no duration). Observations: Unpack (with and without PathSep), the getters that must fail for the fault (dotted name, name+idx, or relative to an intermediate Child), Unpack of an intermediate Child into the matching sub-type; for reference faults also the calls that pass through the failing reference or measure it (Has, Remove, Set* of a name below it, CountField of it; judged when they fail). Explicit nulls go half of the time through the routes where the null arrives from a later operand than its holder. Plus, per case, 3 faults that make the load fail (NewFrom or Merge of the valid tree with one setting replaced by a text with broken ${ syntax or by a chan/func value, or with a primitive setting spelled a second time as a namespace \"k.zz_dup\": the error must name the full dotted path of that setting - either spelling for the duplicate - and the source), 2 setter calls with an index beyond MaxIdx(10) (on a name absent from a dictionary of the tree and on a list of the tree: the error must name the list setting; the source where the list exists), 6 reads of settings that do not exist (a key not in a dictionary of the tree, an index behind a list of the tree, names below those; dotted, name+idx, through a Child handle; any getter) whose error must name the first missing setting or a longer prefix of the request, and carry the source; and ~600 calls driving the error paths of Bool/Int/Uint/Float/String/Child, Has, CountField, Remove, Set*, SetChild, NewFrom, Merge and Unpack (missing, through primitives, through failing references, wrong types, unsupported values and targets, non-string keys, duplicate keys, broken ${ syntax, failing resolvers). Distinct = distinct (type program and tree shape, fault kind, depth class, route)."
 }
 
 func (check) Assumptions() []string {
 	return []string{
 		"wording independent judgement of the message (Message() of the typed error): the setting is named iff its full dotted path (keys and list indices, at which the generator put the fault) occurs as a delimited token (the characters before and behind are not letters, digits, '_', '.', '-'; a sentence's full stop delimits); if it does not occur but the path of another setting or container of the tree does (longest first; a proper prefix of the path counts) the error names a different setting, else it names none; the source must occur as a delimited token anywhere. A key quoted in a cyclic reference clause counts only if it is the faulty setting's own full path (falls out of the token rule)",
 		"generated keys are distinctive tokens (ka, hst, cfg_1, with-dash, q r, k1, ...) that do not occur in the prose of messages, in type names or in the texts of the hand-written Validate/Unpack methods",
-		"merge chains give every operand its own source src-<case>-op<k>: the exact operand is demanded whenever a value exists at the faulty setting (a primitive, the text of a reference or splice, a list or an object: every route delivers it by one operation); when nothing exists there (absent, null: the error is raised on behalf of the holder), for the lenient list-for-object kind, and for a dictionary merged key by key from two operands (ReplaceArrValues over an existing dictionary) any source of the chain is accepted",
+		"merge chains give every operand its own source src-<case>-op<k>: the exact operand is demanded whenever a value exists at the faulty setting (a primitive, the text of a reference or splice, a list, an object, or an explicit null - it was written in one operand, and a validator failing because of it must point there: every route delivers it by one operation); when nothing exists there (absent: the error is raised on behalf of the holder; the holder's source is demanded where the route knows that the holder comes from one operand, i.e. a dictionary replaced as a whole), for the lenient list-for-object kind, and for a dictionary merged key by key from two operands (ReplaceArrValues over an existing dictionary) any source of the chain is accepted",
 		"a value produced by expansion belongs to the setting holding the expression: errors at and below it must show that setting's source and continue its dotted path. Texts are generated so that the value parser reads them back as the tree they were written from (checked with parse.Value as a filter on the generator, not as an oracle; a non-negative integer comes back unsigned); empty lists and objects, a text that is just null, and strings containing '$' are not written as text",
 		"a read of a setting that does not exist: the error may name the first missing setting on the requested path or any longer prefix of the request (which of them is not pinned down); calls passing through a failing reference (Has, Remove, Set*, CountField) need not fail (Has reports a missing reference as absent), only their errors are judged",
-		"single fault only: all other settings conform to the type, so which of several guilty settings is named cannot arise; keys never contain '.', quotes or '$', and are never numeric",
+		"single fault only: all other settings conform to the type, so which of several guilty settings is named cannot arise; keys never contain '.', '/', ':', quotes or '$', and are never numeric (the tag of a dotted field is two such keys joined by the case's separator)",
+		"load-time failures (broken expression syntax, unsupported Go value, a key spelled twice) are failures caused by one setting of the input and are judged like the others although the statement's list of fault kinds does not name them: a partial path ('1' for 'a.1', 'a.b' for 'x.a.b') looks like a full one and names a different place; for the duplicate either spelling is accepted",
+		"outside / not generated: panics of unsupported inputs (C07), uintptr targets (not a supported target kind: a string into uintptr is refused as unsupported), invalid defaults pre-filled in the TARGET (pointers, untouched slice elements: not settings of the configuration), the filler elements of a list gap (never loaded, so no source to report; C18 tracks it), errors of RegisterValidator, of the YAML/JSON/HJSON decoders, the OS and the flag value syntax (not calls on a configuration / front-end syntax), a reference to a LIST where an array of another length or a validated list is expected (length and validator belong to both settings), the wording of messages (\"required 'object', but found 'object'\"), list-for-object and object-for-slice (documented as no failures)",
 		"target types never put pointers inside slices or maps, never point to maps, slices or arrays, use arrays only as struct fields and *regexp.Regexp only as a struct field (other shapes are C06/C07 findings)",
 		"a list where an object is expected is not clearly an error by the documentation (a list is a Config object): if Unpack accepts it this is only counted; if it fails the error must name the setting or one below it",
 		"the source is not demanded where no value exists that could carry it (a member of an absent struct) nor for the lenient list-for-object kind; for an absent or null setting with a required tag it is demanded from the holder (the library attaches the holder's source there); a struct setting present as null is a value loaded with a source, so errors about its members must show one",
-		"signatures: <problem>:<fault kind>:<target shape>[+inline][+from-child]:<depth class>[:only-via-<route>] (the suffix when the directly built configuration does not show the problem under the same views); fault-not-detected carries no depth class (no message exists that could misname anything); error-names-wrong-source (the source of another operand of the chain) extends the problem list; predicates that hold across kinds, shapes and depths get their own signature: ...:interface-target (the enclosing interface{} slot is named instead of the leaf inside), ...:drops-struct-key (the key of an absent struct is left out of the path of its member), <problem>:<kind>:through-<call> (a call passing through a failing reference), error-lacks-source:value-inside-expanded-container:via-<route> and error-lacks-source:expanded-list-or-object-itself:via-<route> (expansion routes expand-resolver|expand-splice @self|@holder|@ancestor: where the expanded value sits relative to the setting to be named), error-lacks-source:<kind>:container-implied-by-setters, error-names-wrong-source:failing-reference:list-target, error-names-wrong-source:<kind>:list-replaced-as-a-whole:only-via-merge-replace-arr, error-lacks-source:required-in-null-struct, error-names-wrong-path:missing-read:<what is missing>:<top-level|nested>-holder:<form>:<front|middle>-of-path-dropped; reference kinds carry the form of the splice (+splice-text, +splice-list, +splice-object)",
+		"signatures: <problem>:<fault kind>:<target shape>[+inline][+from-child]:<depth class>[:only-via-<route>] (the suffix when the directly built configuration does not show the problem under the same views); fault-not-detected carries no depth class (no message exists that could misname anything); error-names-wrong-source (the source of another operand of the chain) extends the problem list; predicates that hold across kinds, shapes and depths get their own signature: ...:interface-target (the enclosing interface{} slot is named instead of the leaf inside), ...:drops-struct-key (the key of an absent struct is left out of the path of its member), <problem>:<kind>:through-<call> (a call passing through a failing reference), error-lacks-source:value-inside-expanded-container:via-<route> and error-lacks-source:expanded-list-or-object-itself:via-<route> (expansion routes expand-resolver|expand-splice @self|@holder|@ancestor: where the expanded value sits relative to the setting to be named), error-lacks-source:<kind>:container-implied-by-setters, error-names-wrong-source:failing-reference:list-target, error-names-wrong-source:<kind>:list-replaced-as-a-whole:only-via-merge-replace-arr, error-lacks-source:required-in-null-struct, error-names-wrong-path:missing-read:<what is missing>:<top-level|nested>-holder:<form>:<front|middle>-of-path-dropped|path-spelled-with-read-separator, <problem>:<kind>:path-spelled-with-read-separator, <fault-not-detected|error-names-wrong-path|error-names-wrong-source>:<unresolvable-reference|cyclic-reference|primitive-for-object|...>:dotted-tag-namespace (the fault at the namespace a dotted tag reaches through is swallowed or turned into an absent member), error-names-wrong-path:reference-to-object-for-primitive:names-referenced-setting (+ error-names-wrong-source:...:source-of-referenced-setting), error-names-wrong-source:<kind>:explicit-null, error-names-wrong-source:<kind>:dictionary-replaced-as-a-whole:only-via-merge-field-replace, error-names-wrong-path:<kind>:mixed-holder-named-instead-of-its-setting, error-lacks-path:load-time:<broken-expression|unsupported-value|duplicate-key>:<in-dict|in-list>[-top]:<names-no-setting|front-of-path-dropped>, error-lacks-source:load-time:<kind>, error-lacks-path|error-lacks-source:setter-index-out-of-range:<absent-setting|existing-list>; reference kinds carry the form of the splice (+splice-text, +splice-list, +splice-object)",
 		"not demanded: Error.Path(), the wording, which Reason is used, errors of the YAML/JSON/HJSON syntax decoders and of the OS; whether the typed-error drive calls fail at all (only counted: drive_no_error)",
 		"panics are reported (panic:<entry point>) but inputs known to panic (C07: Unpack(&interface{}), negative idx, nil and unaddressable targets, complex values) are not generated",
 	}
@@ -79,15 +81,29 @@ type caseState struct {
 	verbose bool
 	byPath  map[string]*position
 	shapeID string
+	sep     string // the path separator of all reads of the case
+	dotted  bool   // the type has dotted tags: every Unpack needs the PathSep option
 }
+
+// rd spells a dotted name for a read with the separator of the case (keys
+// never contain a '.').
+func (cs *caseState) rd(name string) string { return strings.ReplaceAll(name, ".", cs.sep) }
+func (cs *caseState) ps() ucfg.Option       { return ucfg.PathSep(cs.sep) }
 
 func (check) Run(seed int64, tier string, idx int, verbose bool) harness.Result {
 	res := harness.NewR(idx)
 	r := rand.New(rand.NewSource(harness.Mix(seed, "C14", idx)))
 	sr := rand.New(rand.NewSource(harness.Mix(seed, "C14spec", r.Intn(specPool(tier)))))
-	top := (&specGen{sr}).top()
+	top := (&specGen{r: sr}).top()
 	V := (&valGen{r}).value(top, false)
-	cs := &caseState{res: res, r: r, top: top, V: V, base: fmt.Sprintf("src-%d", idx), verbose: verbose, byPath: map[string]*position{}}
+	cs := &caseState{res: res, r: r, top: top, V: V, base: fmt.Sprintf("src-%d", idx), verbose: verbose, byPath: map[string]*position{}, sep: top.sep, dotted: top.hasDotted()}
+	res.SetAdd("read_separator", cs.sep)
+	if cs.dotted {
+		res.Ev("cases_with_dotted_tags", 1)
+	}
+	if cs.sep != "." {
+		res.Ev("cases_reading_with_another_separator", 1)
+	}
 	h := fnv.New64a()
 	h.Write([]byte(top.typ.String()))
 	h.Write([]byte(shapeOf(V)))
@@ -110,6 +126,12 @@ func (check) Run(seed int64, tier string, idx int, verbose bool) harness.Result 
 		}
 		if panicked, pv, where := harness.Safe(cs.missingReads); panicked {
 			res.Violate("panic:missing-reads", "panic %q at %s", clip(pv, 300), where)
+		}
+		if panicked, pv, where := harness.Safe(cs.loadTimeFaults); panicked {
+			res.Violate("panic:load-time-faults", "panic %q at %s", clip(pv, 300), where)
+		}
+		if panicked, pv, where := harness.Safe(cs.setterIndexFaults); panicked {
+			res.Violate("panic:setter-index-faults", "panic %q at %s", clip(pv, 300), where)
 		}
 	}
 	panicked, pv, where := harness.Safe(func() { drive(res, r, V, cs.base) })
@@ -164,7 +186,7 @@ func (cs *caseState) validPair() bool {
 		res.Violate("valid-pair-rejected:NewFrom:"+reasonClass(err), "NewFrom of the valid tree failed: %s; %s", clip(errText(err), 400), ctx)
 		return false
 	}
-	panicked, pv, where = harness.Safe(func() { err = c.Unpack(cs.newTarget(), ucfg.PathSep(".")) })
+	panicked, pv, where = harness.Safe(func() { err = c.Unpack(cs.newTarget(), cs.ps()) })
 	res.Eval(1)
 	if panicked {
 		res.Violate("panic:Unpack", "valid pair: panic %q at %s; %s", clip(pv, 300), where, ctx)
@@ -295,6 +317,12 @@ func (cs *caseState) runFault(pos *position, f fault) {
 			res.Ev("reference_faults_inside_splices", 1)
 		}
 	}
+	if pos.sp != nil && pos.sp.dottedNS {
+		res.Ev("faults_at_dotted_tag_namespace", 1)
+	}
+	if f.val != nil && f.val.IsNil() {
+		res.Ev("explicit_null_faults", 1)
+	}
 	res.SetAdd("target_shape", pos.shape())
 	res.SetAdd("depth_class", pos.depthClass())
 	res.SetAdd("kind_x_shape", f.kind+"|"+pos.shape())
@@ -311,10 +339,23 @@ func (cs *caseState) runFault(pos *position, f fault) {
 	rt := routes[cs.r.Intn(len(routes))]
 	// the dotted spellings and the values produced by expansion get a fixed
 	// share of the runs each
-	if share := map[int]string{0: "dotted-", 1: "expand-"}[cs.r.Intn(4)]; share != "" {
+	if share := map[int]string{0: "dotted-", 1: "expand-", 2: "mixed-", 3: "merge-field-"}[cs.r.Intn(6)]; share != "" {
 		var sel []route
 		for _, x := range routes {
 			if strings.HasPrefix(x.name, share) {
+				sel = append(sel, x)
+			}
+		}
+		if len(sel) > 0 {
+			rt = sel[cs.r.Intn(len(sel))]
+		}
+	}
+	if f.val != nil && f.val.IsNil() && cs.r.Intn(2) == 0 {
+		// an explicit null matters most where it arrives from another
+		// operand than its holder
+		var sel []route
+		for _, x := range routes {
+			if strings.HasSuffix(x.name, "merge-overlay") {
 				sel = append(sel, x)
 			}
 		}
@@ -346,10 +387,17 @@ func (cs *caseState) twin(rt route, pos *position, f fault) bool {
 		cs.historyFailed(rt, err, "valid twin")
 		return false
 	}
-	panicked, pv, where = harness.Safe(func() { err = b.cfg.Unpack(cs.newTarget(), b.uopts...) })
+	panicked, pv, where = harness.Safe(func() { err = b.cfg.Unpack(cs.newTarget(), append([]ucfg.Option{cs.ps()}, b.uopts...)...) })
 	res.Eval(1)
 	if panicked {
 		res.Violate("panic:Unpack", "valid twin via %s: panic %q at %s; type %v; history %s", rt.name, clip(pv, 300), where, cs.top.typ, clip(b.desc, 1500))
+		return false
+	}
+	if err != nil && strings.HasPrefix(rt.name, "mixed-") {
+		// what a target makes of a setting with both parts is not this property's claim
+		typed(res, "Unpack", err, b.desc)
+		res.Ev("mixed_twin_not_valid", 1)
+		res.SetAdd("mixed_twin_not_valid", pos.shape()+"|"+reasonClass(err))
 		return false
 	}
 	if err != nil && strings.HasPrefix(rt.name, "expand-") {
@@ -410,6 +458,9 @@ func (cs *caseState) observe(rt route, T *model.Node, pos *position, f fault, ba
 	res.Ev("fault_runs", 1)
 	res.SetAdd("route", rt.name)
 	res.SetAdd("kind_x_route", f.kind+"|"+rt.name)
+	if rt.name == "mixed-holder" || rt.name == "merge-field-replace" {
+		res.Ev("fault_runs_via_"+rt.name, 1)
+	}
 	if strings.HasPrefix(rt.name, "expand-") {
 		res.Ev("fault_runs_on_expanded_values", 1)
 		res.SetAdd("expanded_kind_x_anchor", f.kind+rt.name[strings.Index(rt.name, "@"):])
@@ -419,6 +470,8 @@ func (cs *caseState) observe(rt route, T *model.Node, pos *position, f fault, ba
 	exact := ""
 	if !f.parentRaised {
 		exact = b.exactSrc
+	} else if !f.lenient {
+		exact = b.holderSrc
 	}
 	ctx := func() string {
 		return fmt.Sprintf("fault %s at '%s' (target %s, %s); type %v; history %s", f.sigKind(), want, pos.shape(), pos.depthClass(), cs.top.typ, clip(b.desc, 2500))
@@ -485,10 +538,42 @@ func (cs *caseState) observe(rt route, T *model.Node, pos *position, f fault, ba
 		isList := pos.sp != nil && (pos.sp.kind == kSlice || pos.sp.kind == kArray)
 		valSub := f.val != nil && f.val.Kind == model.KSub
 		switch {
+		case rt.name == "mixed-holder" && problem == "error-names-wrong-path" && baseline != nil && !baseline[key] && len(pos.path) > 1 &&
+			hasToken(msg, pathStr(pos.path[:len(pos.path)-1]), false):
+			// the holder with both a list and a dictionary part is named
+			// instead of its element or member
+			sig = problem + ":" + f.kind + ":mixed-holder-named-instead-of-its-setting"
 		case strings.HasPrefix(shape, "through-"):
 			// a call that passes through the failing reference or measures it:
 			// what matters is the call and how the reference fails
 			sig = problem + ":" + f.kind + ":" + shape
+		case pos.sp != nil && pos.sp.dottedNS && strings.HasSuffix(entry, "Unpack") &&
+			(problem == "fault-not-detected" || problem == "error-names-wrong-source" || problem == "error-names-wrong-path" && hasToken(msg, want, true)):
+			// a fault at the namespace a dotted tag reaches through goes
+			// unreported, or the member behind it is reported as absent
+			// (with the source of the holder)
+			class := f.kind
+			switch {
+			case strings.Contains(f.kind, "cyclic"):
+				class = "cyclic-reference"
+			case strings.Contains(f.kind, "reference"):
+				class = "unresolvable-reference"
+			}
+			sig = problem + ":" + class + ":dotted-tag-namespace"
+		case (problem == "error-names-wrong-path" || problem == "error-lacks-path") && spelledWith(msg, want, cs.sep):
+			// the path is there, but (partly) joined with the separator of the call
+			sig = problem + ":" + f.kind + ":path-spelled-with-read-separator"
+		case f.refTo != "" && problem == "error-names-wrong-path" && hasToken(msg, f.refTo, false):
+			// the referenced object is named instead of the setting holding the reference
+			sig = problem + ":" + f.kind + ":names-referenced-setting"
+		case f.refTo != "" && problem == "error-names-wrong-source":
+			sig = problem + ":" + f.kind + ":source-of-referenced-setting"
+		case problem == "error-names-wrong-source" && f.val != nil && f.val.IsNil():
+			// an explicit null reports another operand's source (its holder's)
+			sig = problem + ":" + f.kind + ":explicit-null"
+		case problem == "error-names-wrong-source" && rt.name == "merge-field-replace":
+			// a dictionary replaced as a whole by a later operand
+			sig = problem + ":" + f.kind + ":dictionary-replaced-as-a-whole:only-via-" + rt.name
 		case problem == "error-lacks-source" && f.kind == "required-in-null-struct":
 			// however the null got there
 			sig = problem + ":" + f.kind
@@ -540,8 +625,8 @@ func (cs *caseState) observe(rt route, T *model.Node, pos *position, f fault, ba
 
 	// Unpack of the whole configuration
 	uo := append([]ucfg.Option{}, b.uopts...)
-	if r.Intn(2) == 0 {
-		uo = append(uo, ucfg.PathSep("."))
+	if r.Intn(2) == 0 || cs.dotted {
+		uo = append(uo, cs.ps())
 	}
 	panicked, pv, where = harness.Safe(func() { err = b.cfg.Unpack(cs.newTarget(), uo...) })
 	res.Eval(1)
@@ -553,7 +638,7 @@ func (cs *caseState) observe(rt route, T *model.Node, pos *position, f fault, ba
 	}
 
 	// the getters that must fail for this fault
-	ps := ucfg.PathSep(".")
+	ps := cs.ps()
 	gopts := append([]ucfg.Option{ps}, b.uopts...)
 	if len(f.getters) > 0 {
 		gn := f.getters[r.Intn(len(f.getters))]
@@ -568,7 +653,7 @@ func (cs *caseState) observe(rt route, T *model.Node, pos *position, f fault, ba
 			j := 1 + r.Intn(len(pos.path)-1)
 			var cerr error
 			var ch *ucfg.Config
-			panicked, _, _ := harness.Safe(func() { ch, cerr = b.cfg.Child(pathStr(pos.path[:j]), -1, gopts...) })
+			panicked, _, _ := harness.Safe(func() { ch, cerr = b.cfg.Child(cs.rd(pathStr(pos.path[:j])), -1, gopts...) })
 			res.Eval(1)
 			if !panicked && cerr == nil && ch != nil {
 				c, name, form = ch, pathStr(pos.path[j:]), "via-child"
@@ -577,7 +662,7 @@ func (cs *caseState) observe(rt route, T *model.Node, pos *position, f fault, ba
 			}
 		}
 		var gerr error
-		panicked, pv, where := harness.Safe(func() { gerr = g.f(c, name, idx, gopts...) })
+		panicked, pv, where := harness.Safe(func() { gerr = g.f(c, cs.rd(name), idx, gopts...) })
 		res.Eval(1)
 		res.SetAdd("entry_point", gn)
 		res.SetAdd("getter_form", form)
@@ -610,7 +695,7 @@ func (cs *caseState) observe(rt route, T *model.Node, pos *position, f fault, ba
 			var cerr error
 			childFailed := false
 			panicked, pv, where := harness.Safe(func() {
-				if ch, cerr = b.cfg.Child(pathStr(pos.path[:j]), -1, gopts...); cerr != nil {
+				if ch, cerr = b.cfg.Child(cs.rd(pathStr(pos.path[:j])), -1, gopts...); cerr != nil {
 					childFailed = true
 					return
 				}
@@ -632,7 +717,7 @@ func (cs *caseState) observe(rt route, T *model.Node, pos *position, f fault, ba
 	// a failing reference seen by the calls that have to pass through it or
 	// measure it: the failure is the reference's, whatever the call
 	if strings.Contains(f.kind, "reference") {
-		below := want + ".zz_below"
+		below := cs.rd(pathStr(pos.path) + ".zz_below")
 		type bcall struct {
 			entry string
 			f     func() error
@@ -646,7 +731,7 @@ func (cs *caseState) observe(rt route, T *model.Node, pos *position, f fault, ba
 				holder := b.cfg
 				if len(pos.path) > 1 {
 					var err error
-					if holder, err = b.cfg.Child(pathStr(pos.path[:len(pos.path)-1]), -1, gopts...); err != nil {
+					if holder, err = b.cfg.Child(cs.rd(pathStr(pos.path[:len(pos.path)-1])), -1, gopts...); err != nil {
 						return nil
 					}
 				}
@@ -688,4 +773,13 @@ func (cs *caseState) observe(rt route, T *model.Node, pos *position, f fault, ba
 		}
 	}
 	return seen
+}
+
+// spelledWith: msg contains the dotted path with some of its dots replaced by
+// another separator.
+func spelledWith(msg, path, sep string) bool {
+	if sep == "." || !strings.Contains(path, ".") || strings.Contains(msg, path) {
+		return false
+	}
+	return strings.Contains(strings.ReplaceAll(msg, sep, "."), path)
 }
